@@ -31,9 +31,14 @@ class Clock(object):
   def __init__(self):
     self.now = 1000.0
     self.slept = []
+    self.jump = 0.0       # real clocks move between two reads inside one operation: advance by `jump` after the next read
 
   def time(self):
-    return self.now
+    t = self.now
+    if self.jump:
+      self.now += self.jump
+      self.jump = 0.0
+    return t
 
   def sleep(self, dt):
     self.slept.append(dt)
@@ -98,7 +103,7 @@ def dfs_shard(arg):
   carbon.util.time = clock.time
   carbon.util.sleep = clock.sleep
   new = (max(2 * c, 2), 2 * r)
-  events = ['d', 'b', ('a', 1.0 / (2 * r)), ('a', 1.0 / r), ('a', c / r), ('a', 1e6), 's']
+  events = ['d', 'b', 'bj', ('a', 1.0 / (2 * r)), ('a', 1.0 / r), ('a', c / r), ('a', 1e6), 's']
   stats = {'n': 0, 'grants': 0, 'blocked': 0, 'refused': 0, 'maxburst': 0}
   bad = []
   try:
@@ -106,8 +111,13 @@ def dfs_shard(arg):
       """apply ev on (copies of) the state; returns new state or None on violation"""
       clock.now = now
       clock.slept = []
-      if ev == 'd' or ev == 'b':
+      clock.jump = 0.0
+      if ev in ('d', 'b', 'bj'):
+        if ev == 'bj':
+          clock.jump = 1.0 / ideal.r          # the thread is descheduled for one token's worth of time after its first clock read
+          ev = 'b'
         ok = bucket.drain(1, blocking=(ev == 'b'))
+        clock.jump = 0.0
         now2 = clock.now
         if ev == 'b':
           if ok is not True:
@@ -115,6 +125,7 @@ def dfs_shard(arg):
             return None
           slept = sum(x for x in clock.slept if x > 0)
           deficit = ideal.deficit(now)
+          ideal.refill(now)
           if slept > deficit / ideal.r + EPS:
             bad.append(('overslept', 'blocking acquisition slept %r s; deficit %r tokens at rate %r/s needs %r s (history %r)' % (
               slept, deficit, ideal.r, deficit / ideal.r, hist), hist))
@@ -257,7 +268,7 @@ def run(ctx):
   evnames = ['d', 'b', 'a0', 'a1', 'a2', 'a3', 's']
   tasks = []
   for (c, r) in CONFIGS:
-    events = ['d', 'b', ('a', 1.0 / (2 * r)), ('a', 1.0 / r), ('a', c / r), ('a', 1e6), 's']
+    events = ['d', 'b', 'bj', ('a', 1.0 / (2 * r)), ('a', 1.0 / r), ('a', c / r), ('a', 1e6), 's']
     for pre in itertools.product(events, repeat=plen):
       tasks.append(((c, r), list(pre), depth))
   tasks = core.seeded_order(tasks, ctx.seed)
